@@ -25,7 +25,7 @@ CHECKS = {
         "variants": ["asan-ts"], "level": "exploration",
         "quick": T(20000, 45), "thorough": T(600000, 600),
         "rule": "one run = generated world + config (every output incl. path templates, facility x level, ident, error_logging, chains) + one exec (success or failure); all sinks watched; "
-                "non-trivial = decision and sink determined by the model; distinct = (output, decision, message-length bucket, fd-1 kind, outcome)",
+                "non-trivial = decision and sink determined by the model; distinct = (output, decision, message-length bucket, fd-1 kind, outcome, token classes of the format, facility|level, ident/error-logging set, sink usable)",
         "probes": ["output_devlog", "output_stdout", "output_stderr", "output_file", "output_socket", "output_devtty", "output_devnull", "drop", "empty_or_none", "success_stdout_buffered", "msg_ge_64k", "fifo_slow_reader"],
     },
 }
